@@ -19,7 +19,7 @@ ENCODED = ["dateparser.date.DateDataParser.get_date_data", "dateparser.date.get_
 ASSUMPTIONS = [
     "zones WITH transitions (tz-database names): pytz's own DstTzInfo.localize/normalize/fromutc/utcoffset code is "
     "re-imported through the loader and executed symbolically (bisect over the transition table forks per interval); "
-    "6 zones, local date-times in a window (quick 2019-2022, thorough 1971-2037) that are neither in a gap nor ambiguous; "
+    "6 zones, local date-times in a window (quick 2019-2022, thorough 1971-2036) that are neither in a gap nor ambiguous; "
     "the oracle is a transition table derived from the stdlib zoneinfo (system tzdata), independent of pytz",
     "bounded claim: ordered pairs drawn from a pool of FIXED-OFFSET zone spellings (pytz UTC, table offsets and static "
     "abbreviations that are not tz-database names, 'local' = the stubbed process zone UTC); zones with DST transitions "
@@ -290,17 +290,19 @@ def tasks(tier, seed):
         for aw in AWARE:
             add("relative-named:%s:%s>%s:%s" % (z, A, B, aw), "h_relative", {"A": A, "B": B, "aware": aw, "named": z})
     # tz-database zones with transitions (pytz's own code runs symbolically); window of local date-times
-    y0, y1 = (2021, 2021) if quick else (1971, 2037)
+    y0, y1 = (2021, 2021) if quick else (1971, 2036)
     fixed = ["UTC", "+0530", None]
-    if quick:
-        A = DST_ZONES[seed % len(DST_ZONES)]
-        A2 = DST_ZONES[(seed + 1) % len(DST_ZONES)]
+    from . import zones
+    DZ = [z for z in DST_ZONES if zones.usable(z, y0 - 1, y1 + 1)]      # zoneinfo and pytz data must agree on the window
+    if quick and len(DZ) >= 2:
+        A = DZ[seed % len(DZ)]
+        A2 = DZ[(seed + 1) % len(DZ)]
         for parser, a_, b_, aw in (("timestamp", A, "UTC", None), ("format", A, fixed[seed % 3], True), ("relative", A, "UTC", False),
                                    ("timestamp", A2, A, True), ("format", A2, A, None), ("timestamp", "UTC", A2, True)):
             add("dst:%s:%s>%s:%s" % (parser, a_, b_, aw), "h_dst", {"parser": parser, "A": a_, "B": b_, "aware": aw, "y0": y0, "y1": y1}, 150)
-    else:
-        for j, A in enumerate(DST_ZONES):
-            others = [z for z in DST_ZONES if z != A]
+    elif not quick:
+        for j, A in enumerate(DZ):
+            others = [z for z in DZ if z != A]
             for B in fixed + others:
                 for parser in ("timestamp", "relative", "format") + (("absolute",) if j < 2 and B in (None, "UTC") else ()):
                     aw = AWARE[(j + len(parser) + seed) % 3]
